@@ -103,7 +103,9 @@ inductive Call where
   | copy (src dst : Target)
   | complete (t : Target)
   | delete (t : Target) (marker : Bool)                      -- marker: the result is a new delete marker
-  | deleteObjects (bucket : Str) (ks : List (Str × Bool))    -- deleted keys with their marker flag
+  | deleteObjects (bucket : Str) (ks : List (Str × Bool)) (refused : List Str)
+      -- entries the storage reports `Deleted` (key, marker flag) and entries it refused (`Deleted = false`:
+      -- stale If-Match ETag, If-Match on a missing key) — the request as a whole succeeds
   | tagPut (t : Target)
   | tagDel (t : Target)
   | append (t : Target)
@@ -128,7 +130,7 @@ def codeEvents : Call → List Event
   | .copy _ dst => [{ name := evCreatedCopy, bucket := dst.bucket, key := dst.key }]
   | .complete t => [{ name := evCreatedComplete, bucket := t.bucket, key := t.key }]
   | .delete t m => [{ name := removedName m, bucket := t.bucket, key := t.key }]
-  | .deleteObjects b ks => ks.map fun k => { name := removedName k.2, bucket := b, key := k.1 }
+  | .deleteObjects b ks _ => ks.map fun k => { name := removedName k.2, bucket := b, key := k.1 }   -- `if !deleted.Deleted { continue }`
   | .tagPut t => [{ name := evTaggingPut, bucket := t.bucket, key := t.key }]
   | .tagDel t => [{ name := evTaggingDelete, bucket := t.bucket, key := t.key }]
   | .append _ => []
